@@ -396,12 +396,12 @@ def check(pid: str, tier: str, runs: int | None = None) -> int:
         # interpreter (outcomes that depend on allocator state, e.g. address reuse) the unminimised case and
         # then further hits are tried -- a case is only ever reported if its replay file reproduces
         path = None
-        for rec, v in hits[:4]:
+        for rec, v in hits[:getattr(prop, "report_candidates", 4)]:
             case = rec["case"]
             if hasattr(prop, "refine"):
                 case = prop.refine(case, v)
             original = len(case.get("ops", []))
-            small, tries = shrink(prop, case, oracle, known)
+            small, tries = shrink(prop, case, oracle, known, budget=getattr(prop, "shrink_budget", 400))
             v2 = still_fails(prop, small, oracle, known) or v
             cand = write_replay(pid, small, v2, original, tries)
             if _replay_in_fresh_process(cand):
